@@ -90,6 +90,15 @@ fn nest_cases() -> Vec<(String, String)> {
         v.push((format!("struct-unclosed-depth-{}", d), wrap(&u)));
         let e: String = "(".repeat(d) + "a" + &")".repeat(d);
         v.push((format!("enum-parens-depth-{}", d), wrap(&e)));
+        // a syntax error at the innermost level (every enclosing level has to give up)
+        let g: String = "(a: ".repeat(d) + "int$" + &")".repeat(d);
+        v.push((format!("struct-garbled-inside-depth-{}", d), wrap(&g)));
+        let g2: String = "(a: ".repeat(d) + &")".repeat(d);
+        v.push((format!("struct-missing-type-depth-{}", d), wrap(&g2)));
+        let g3: String = "(a: int, b: ".repeat(d) + "(x,, y)" + &")".repeat(d);
+        v.push((format!("struct-bad-enum-inside-depth-{}", d), wrap(&g3)));
+        let g4: String = "[](a: ?[string]".repeat(d) + "string int" + &")".repeat(d);
+        v.push((format!("mixed-garbled-inside-depth-{}", d), wrap(&g4)));
     }
     for d in [500usize, 1000, 2000] {
         v.push((format!("array-depth-{}", d), wrap(&("[]".repeat(d) + "int"))));
